@@ -5,7 +5,9 @@
 (*   W x  (assign a fresh value to local x)      R x  (read local x)       *)
 (*   FR x (x is bound as the key variable of a forRange over injected      *)
 (*        data: a local defined without an assignment statement)           *)
-(*   H    (hold: block on a gate)                                          *)
+(*   H    (hold: block on a gate)            T  (set the call's stop tag)  *)
+(*   CW x (a conc block with a slow assignment to local x and a sibling    *)
+(*        that succeeds: after the block x is assigned)                    *)
 (*   CF x (a conc block with a slow assignment to local x and a failing    *)
 (*        call: x is assigned, then the block - and the rule - fails)      *)
 (*   WI a (assign injected field a)              RI a (read injected a)    *)
@@ -43,14 +45,15 @@ EStartCore(e, r, q) ==
 EOpCore(e, i, val) ==
   /\ e \in DOMAIN ex /\ ~ex[e].ended /\ ~ex[e].failed /\ HasNext(e) /\ i = ex[e].pc + 1
   /\ LET op == NextOp(e) IN
-     CASE op.k \in {"W", "FR"}
+     CASE op.k \in {"W", "FR", "CW"}
                       -> /\ ex' = [ex EXCEPT ![e].pc = i, ![e].store = (op.name :> val) @@ @]
                          /\ UNCHANGED inj
        [] op.k = "R"  -> /\ op.name \in DOMAIN ex[e].store
                          /\ val = ex[e].store[op.name]
                          /\ ex' = [ex EXCEPT ![e].pc = i]
                          /\ UNCHANGED inj
-       [] op.k = "H"  -> /\ ex' = [ex EXCEPT ![e].pc = i] /\ UNCHANGED inj
+       [] op.k \in {"H", "T"}
+                      -> /\ ex' = [ex EXCEPT ![e].pc = i] /\ UNCHANGED inj
        [] op.k = "CF" -> /\ ex' = [ex EXCEPT ![e].pc = i, ![e].store = (op.name :> val) @@ @, ![e].failed = TRUE]
                          /\ UNCHANGED inj
        [] op.k = "WI" -> /\ ex' = [ex EXCEPT ![e].pc = i]
@@ -105,8 +108,8 @@ LSpec == LInit /\ [][LNext]_lvars
 ReadsOwnWrites ==
   \A j \in DOMAIN lh : lh[j].k = "R" =>
      \E w \in 1..(j-1) :
-        /\ lh[w].k \in {"W", "FR"} /\ lh[w].e = lh[j].e /\ lh[w].name = lh[j].name /\ lh[w].val = lh[j].val
-        /\ \A m \in (w+1)..(j-1) : ~(lh[m].k \in {"W", "FR"} /\ lh[m].e = lh[j].e /\ lh[m].name = lh[j].name)
+        /\ lh[w].k \in {"W", "FR", "CW"} /\ lh[w].e = lh[j].e /\ lh[w].name = lh[j].name /\ lh[w].val = lh[j].val
+        /\ \A m \in (w+1)..(j-1) : ~(lh[m].k \in {"W", "FR", "CW"} /\ lh[m].e = lh[j].e /\ lh[m].name = lh[j].name)
 StartUndefined ==
   \A e \in DOMAIN ex : ex[e].pc = 0 => ex[e].store = <<>>
 SharedInjected ==
